@@ -142,6 +142,32 @@ def run(ctx):
            'the list is only compared with None and tested for membership (unknown entries and '
            'complete lists are therefore no-ops)', cc, ig)
 
+    # unlisted groups stay hydrogen-bond partners *with the same strength*: the
+    # pair energies read the buried-ness (num_volume) of both partners, which
+    # calculate_pka computes only for the groups it iterates over
+    cpk = cc.func('ConformationContainer.calculate_pka')
+    des_loops = [n for n in walk_no_nested(cpk) if isinstance(n, ast.For)
+                 and any(last_attr(c) == 'calculate_desolvation' for c in calls_in(n))]
+    covers_all = bool(des_loops) and all('get_titratable_groups' not in norm(l.iter) for l in des_loops)
+    readers = sorted({'%s.%s' % (m2.name, q2) for m2, q2, f2 in prog.all_funcs()
+                      for n in walk_no_nested(f2) if isinstance(n, ast.Attribute) and n.attr == 'num_volume'
+                      and isinstance(n.ctx, ast.Load) and m2.name in ('energy', 'determinants', 'version')})
+    ctx.ob('C14.R2', 'environment:desolvation-of-unlisted-groups', covers_all,
+           'the buried-ness of a group that is not listed is still computed: it is read for both '
+           'partners of every hydrogen bond and Coulomb pair (%s), and with num_volume left at 0 the '
+           'bond to an unlisted residue changes strength (iterates: %s)'
+           % (readers, [norm(l.iter) for l in des_loops]), cc, des_loops[0] if des_loops else cpk)
+    dmod14 = prog.mod('determinants')
+    sdet = dmod14.func('set_determinants')
+    iter_calls = [c for c in calls_in(sdet) if last_attr(c) == 'add_to_determinant_list']
+    guarded_titr = bool(iter_calls) and all(
+        any('titratable' in norm(e) for e, pol in facts_at(c, sdet)) for c in iter_calls)
+    ctx.ob('C14.R2', 'environment:iterative-scheme-for-titratable-pairs-only', guarded_titr,
+           'a pair enters the iterative (mutually titrating) scheme only when both groups are '
+           'titratable; an unlisted group would otherwise compete with its bare model pKa and can '
+           'lose or flip the hydrogen bond it should merely provide', dmod14,
+           iter_calls[0] if iter_calls else sdet)
+
     # ------------------------------------------------------------------ R3
     removals = []
     for m2, q2, f2 in prog.all_funcs():
